@@ -13,7 +13,7 @@ import (
 	"verifharness/internal/val"
 )
 
-var c05Floor = []string{"keys.1", "keys.2", "keys.3", "dir.asc", "dir.desc", "dir.mixed", "key.null", "key.computed-null", "key.alias", "key.alias.nonword", "key.alias.shadow", "key.table-qualified", "key.native", "reexec.window", "key.str", "key.num", "ties", "limit.huge",
+var c05Floor = []string{"keys.1", "keys.2", "keys.3", "dir.asc", "dir.desc", "dir.mixed", "key.null", "key.computed-null", "key.alias", "key.alias.nonword", "key.alias.shadow", "key.table-qualified", "key.native", "reexec.window", "key.null.multi", "shape.dual", "key.str", "key.num", "ties", "limit.huge",
 	"limit.bare", "limit.beyond-int64", "limit.offset", "limit.comma", "limit.zero", "offset.beyond", "window.straddle", "window.inside", "window.noorder", "where",
 	"shape.distinct", "shape.agg-all", "shape.group", "shape.union", "shape.bigint", "shape.union-order", "shape.qualified", "shape.shrunk-offset"}
 
@@ -80,6 +80,11 @@ func c05Order(c *fw.Case) {
 		if nk == 1 && (force == "key.null" || c.Chance(0.3)) {
 			cands[0] = gen.Pick(c.R, []string{"z1", "z2"})
 			feats = append(feats, "key.null")
+		}
+		if nk > 1 && (force == "key.null.multi" || c.Chance(0.3)) {
+			// a nullable key among several: rows that are both NULL on it are ordered by the keys after it
+			cands[c.Intn(nk)] = gen.Pick(c.R, []string{"z1", "z2"})
+			feats = append(feats, "key.null", "key.null.multi")
 		}
 		computedNull := nk == 1 && (force == "key.computed-null" || c.Chance(0.12))
 		for i := 0; i < nk; i++ {
@@ -238,20 +243,17 @@ func c05Order(c *fw.Case) {
 				continue
 			}
 			a, b := keyTuple(O[i-1]), keyTuple(O[i])
-			if len(keys) == 1 {
-				// NULL-last in either direction
-				if a[0] == nil && b[0] != nil {
-					fail("null-not-last", fmt.Sprintf("row with NULL key at position %d precedes a non-NULL key", i-1), map[string]any{"sql": osql, "observed": val.Show(O)})
-					return
-				}
-				if a[0] == nil || b[0] == nil {
+			for ki, k := range keys {
+				// NULL-last in either direction; two NULLs tie, the next key decides
+				if a[ki] == nil && b[ki] == nil {
 					continue
 				}
-			}
-			for ki, k := range keys {
-				if a[ki] == nil || b[ki] == nil {
-					c.Discard("NULL in a multi-key sort")
+				if a[ki] == nil {
+					fail("null-not-last", fmt.Sprintf("row with NULL on key %q at position %d precedes a row with a value (earlier keys tie)", k.out, i-1), map[string]any{"sql": osql, "observed": val.Show(O)})
 					return
+				}
+				if b[ki] == nil {
+					break
 				}
 				cmp, err := ref.CmpScalar(a[ki], b[ki])
 				if err != nil {
@@ -423,7 +425,7 @@ func c05Order(c *fw.Case) {
 	}
 }
 
-var c05ShapeKinds = []string{"distinct", "agg-all", "group", "union", "bigint", "union-order", "qualified"}
+var c05ShapeKinds = []string{"distinct", "agg-all", "group", "union", "bigint", "union-order", "qualified", "dual"}
 
 // c05Shapes: the window is cut from the FINAL row sequence, also when that
 // sequence is shorter than the filtered source (DISTINCT, an all-aggregate
@@ -471,6 +473,9 @@ func c05Shapes(c *fw.Case) {
 			sortedBy = "k"
 			base = "SELECT x." + col + " AS k, x.rid FROM t1 x ORDER BY x." + col + map[bool]string{true: " DESC", false: ""}[sortedDesc]
 		}
+	case "dual":
+		// the one-row source: its window is a window over one row
+		base = gen.Pick(c.R, []string{"SELECT 1 AS x, 'y' AS y FROM dual", "SELECT (2 + 3) AS x FROM dual", "SELECT 1 AS x FROM dual WHERE 1 = 1"})
 	case "bigint":
 		pool := []int64{1 << 53, 1<<53 + 1, 1<<53 + 2, 1<<53 + 3, math.MaxInt64, math.MaxInt64 - 1, math.MaxInt64 - 2, -(1 << 53) - 1, -(1 << 53) - 2, math.MinInt64 + 1, math.MinInt64 + 2, 0, 7}
 		unsigned := c.Chance(0.3)
